@@ -1246,3 +1246,195 @@ ANCHORS = [('swh/model/model.py', 'dictify'),
            ('swh/model/model.py', '*.from_dict'),
            ('swh/model/model.py', 'TimestampWithTimezone.from_numeric_offset'),
            ('swh/model/collections.py', 'ImmutableDict.copy_pop')]
+
+
+# the case stream is ordered by family and class: coq_cases gets every case and keeps a spread over the whole stream (it
+# shrinks the list it is given IN PLACE: the evidence's `n` is the number evaluated)
+COQ_SAMPLE = 1 << 30
+
+
+def coq_cases(cases):
+    """construct_x / to_dict_x / from_dict_x / from_dict_old_x / fd_BaseContent_x / as_kwargs evaluated by vm_compute inside
+    Coq vs the extracted driver.  The Coq terms are built from the very request lines the driver receives (the wire values
+    parsed as the driver parses them), and the Coq side prints the answer LINE itself (a transcription of the driver's
+    printer into Gallina): the checksum is over the bytes of the answer line; one checksum per case (extraction cross-check)"""
+    from . import core
+    fam = {"obj": [], "dict": []}
+    for c in cases:
+        fam.setdefault(c["kind"], []).append(c)
+    def spread(l, n):
+        return l[::max(1, len(l) // n)][:n] if l else []
+    chosen = []
+    for c in spread(fam["obj"], 16) + spread(fam["dict"], 16):
+        try:
+            rqs = requests(c)
+        finally:
+            c.pop("_skip", None)
+        if rqs and sum(len(r) for r in rqs) <= 2000:
+            chosen.append((c, rqs))
+    cases[:] = [c for c, _ in chosen]
+    CLS = ["Person", "Timestamp", "TimestampWithTimezone", "Origin", "OriginVisit", "OriginVisitStatus", "SnapshotBranch", "Snapshot",
+           "Release", "Revision", "DirectoryEntry", "Directory", "Content", "SkippedContent", "MetadataAuthority", "MetadataFetcher",
+           "RawExtrinsicMetadata", "ExtID"]
+    ENUM = {"A": "ESnapshotTarget", "B": "EReleaseTarget", "C": "ERevisionType", "D": "EAuthorityType"}
+
+    def nl(h):
+        return "[" + "; ".join("%d" % b for b in bytes.fromhex(h)) + "]%N"
+    def t6(h):
+        return "[" + "; ".join("%d" % int(h[i:i + 6], 16) for i in range(0, len(h), 6)) + "]%N"
+    def asc(s):
+        return "[" + "; ".join("%d" % ord(ch) for ch in s) + "]%N"
+    def parse(w):
+        """the driver's `parse`, producing a Coq term"""
+        pos = 0
+        def until(ch):
+            nonlocal pos
+            j = w.index(ch, pos)
+            t = w[pos:j]
+            pos = j + 1
+            return t
+        def seq(close):
+            nonlocal pos
+            out = []
+            while w[pos] != close:
+                out.append(value())
+            pos += 1
+            return out
+        def pairs(close):
+            nonlocal pos
+            out = []
+            while w[pos] != close:
+                k = value()
+                x = value()
+                out.append("(%s, %s)" % (k, x))
+            pos += 1
+            return out
+        def value():
+            nonlocal pos
+            c = w[pos]
+            pos += 1
+            if c == "N":
+                return "VNone"
+            if c in "TF":
+                return "(VBool %s)" % ("true" if c == "T" else "false")
+            if c == "i":
+                return "(VInt (%d)%%Z)" % int(until(";"))
+            if c == "b":
+                return "(VBytes %s)" % nl(until(";"))
+            if c == "s":
+                return "(VStr %s)" % t6(until(";"))
+            if c == "d":
+                a, b = until(";").split(",")
+                return "(VDate (%d)%%Z (%d)%%Z)" % (int(a), int(b))
+            if c == "(":
+                return "(VTuple [%s])" % "; ".join(seq(")"))
+            if c == "[":
+                return "(VList [%s])" % "; ".join(seq("]"))
+            if c == "{":
+                return "(VDict [%s])" % "; ".join(pairs("}"))
+            if c == "<":
+                return "(VIDict [%s])" % "; ".join(pairs(">"))
+            if c == "e":
+                code = w[pos]
+                pos += 1
+                return "(VEnum %s %s)" % (ENUM[code], t6(until(";")))
+            if c == "w":
+                k = w[pos]
+                pos += 1
+                a, b = until(";").split(",")
+                return "(VSwhid %s %s %s)" % ("Core" if k == "c" else "Extended", t6(a), nl(b))
+            if c == "O":
+                cn = until(":")
+                assert cn in CLS, cn
+                flds = []
+                while w[pos] != ".":
+                    assert w[pos] == "k", w[pos:pos + 20]
+                    pos += 1
+                    n = until("=")
+                    flds.append("(%s, %s)" % (asc(n), value()))
+                pos += 1
+                return "(VObj c%s [%s])" % (cn, "; ".join(flds))
+            raise ValueError("bad wire tag " + c)
+        v = value()
+        assert pos == len(w), "trailing wire data"
+        return v
+    def oid(s):
+        if s.startswith("!"):
+            e = s[1:] if s[1:] in ("TypeError", "ValueError", "KeyError", "AssertionError", "ValidationError", "AttributeError") else "ValueError"
+            return "(Err %s)" % e
+        return "(Ok %s)" % nl(s)
+    def term(rq):
+        w = rq.split(" ")
+        if w[0] == "new":
+            return "xc_new %s c%s %s" % (oid(w[2]), w[1], parse(w[3]))
+        if w[0] == "rt":
+            return "xc_rt %s c%s %s" % (oid(w[2]), w[1], parse(w[3]))
+        assert w[0] in ("fd", "fdold"), rq
+        if w[1] == "BaseContent":
+            f = "(fd_BaseContent_x %s)" % oid(w[2])
+        else:
+            f = "(%s %s %s c%s)" % ("from_dict_x" if w[0] == "fd" else "from_dict_old_x", oid(w[2]), oid(w[3]), w[1])
+        return "xc_fd %s %s" % (f, parse(w[4]))
+    src = ("From Coq Require Import List NArith ZArith.\nFrom SWH.lib Require Import Bytes Dec Hex.\nFrom SWH.model Require Import Codec.\n"
+           "Import ListNotations.\n" + core.COQ_CHECKSUM + """
+(* the driver's printer (ocaml/drv_C12.ml), transcribed: the answer line as bytes *)
+Definition xc_hex6 (t : list N) : list N := concat (map (fun c => hexlify [c / 65536; (c / 256) mod 256; c mod 256]%N) t).
+Definition xc_cls (c : cls) : list N := match c with
+""" + "\n".join("  | c%s => bs \"%s\"" % (n, n) for n in CLS) + """
+  end.
+Definition xc_cls_eqb (a b : cls) : bool := match a, b with
+""" + "\n".join("  | c%s, c%s => true" % (n, n) for n in CLS) + """
+  | _, _ => false end.
+Definition xc_enum (e : enum_ty) : list N :=
+  match e with ESnapshotTarget => bs "A" | EReleaseTarget => bs "B" | ERevisionType => bs "C" | EAuthorityType => bs "D" end.
+Fixpoint xc_show (v : pyval) : list N :=
+  match v with
+  | VNone => bs "N"
+  | VBool b => if b then bs "T" else bs "F"
+  | VInt z => bs "i" ++ dec_Z z ++ bs ";"
+  | VBytes b => bs "b" ++ hexlify b ++ bs ";"
+  | VStr s => bs "s" ++ xc_hex6 s ++ bs ";"
+  | VDate us off => bs "d" ++ dec_Z us ++ bs "," ++ dec_Z off ++ bs ";"
+  | VTuple l => bs "(" ++ concat (map xc_show l) ++ bs ")"
+  | VList l => bs "[" ++ concat (map xc_show l) ++ bs "]"
+  | VDict l => bs "{" ++ concat (map (fun kx : pyval * pyval => xc_show (fst kx) ++ xc_show (snd kx)) l) ++ bs "}"
+  | VIDict l => bs "<" ++ concat (map (fun kx : pyval * pyval => xc_show (fst kx) ++ xc_show (snd kx)) l) ++ bs ">"
+  | VEnum e s => bs "e" ++ xc_enum e ++ xc_hex6 s ++ bs ";"
+  | VSwhid k t i => bs "w" ++ (match k with Core => bs "c" | Extended => bs "x" end) ++ xc_hex6 t ++ bs "," ++ hexlify i ++ bs ";"
+  | VObj c fs => bs "O" ++ xc_cls c ++ bs ":"
+                 ++ concat (map (fun nx : list N * pyval => bs "k" ++ fst nx ++ bs "=" ++ xc_show (snd nx)) fs) ++ bs "."
+  end.
+Definition xc_err (e : err) : list N :=
+  match e with
+  | TypeError => bs "!TypeError" | ValueError => bs "!ValueError" | KeyError => bs "!KeyError"
+  | AssertionError => bs "!AssertionError" | ValidationError => bs "!ValidationError" | AttributeError => bs "!AttributeError"
+  end.
+Definition xc_res (r : result pyval) : list N := match r with Ok v => xc_show v | Err e => xc_err e end.
+Definition xc_new (oid : result (list N)) (c : cls) (w : pyval) : list N :=
+  match w with
+  | VDict kw => bs "ok " ++ xc_res (construct_x oid oid c kw)
+  | _ => bs "err bad_request"
+  end.
+Definition xc_rt (oid : result (list N)) (c : cls) (w : pyval) : list N :=
+  match w with
+  | VObj c' fs =>
+      if xc_cls_eqb c' c then
+        let r0 := construct_x oid oid c (as_kwargs fs) in
+        let d := to_dict_x (VObj c fs) in
+        let (r, after) := from_dict_x oid oid c d in
+        let d2 := match r with Ok o2 => xc_show (to_dict_x o2) | Err e => xc_err e end in
+        bs "ok " ++ xc_res r0 ++ bs " " ++ xc_show d ++ bs " " ++ xc_res r ++ bs " " ++ xc_show after ++ bs " " ++ d2
+      else bs "err bad_request"
+  | _ => bs "err bad_request"
+  end.
+Definition xc_fd (f : pyval -> result pyval * pyval) (v : pyval) : list N :=
+  let (r, after) := f v in
+  let d1 := match r with Ok o => xc_show (to_dict_x o) | Err e => xc_err e end in
+  bs "ok " ++ xc_res r ++ bs " " ++ xc_show after ++ bs " " ++ d1.
+""" + "Definition cases : list (list (list N)) := [" +
+           ";\n ".join("[" + ";\n  ".join(term(r) for r in rqs) + "]" for _, rqs in chosen) + "].\n"
+           "Eval vm_compute in map (fun rs => cksum (map cksum rs)) cases.\n")
+    flat = [r for _, rqs in chosen for r in rqs]
+    resp = iter(core.run_driver(ID, flat))
+    exp = [core.py_cksum([core.py_cksum(next(resp).encode()) for _ in rqs]) for _, rqs in chosen]
+    return src, exp
